@@ -235,6 +235,13 @@ impl Prop for C11 {
             sink(Case::new("unicode", format!("{a}")));
             for b in 0..UNI.len() {
                 sink(Case::new("unicode", format!("{a},{b}")));
+                // thorough goes one symbol deeper: keep each bulk case short (the per-case
+                // watchdog must stay tight enough to attribute a real hang to an input)
+                if tier == Tier::Thorough {
+                    for c in 0..UNI.len() {
+                        sink(Case::new("unicode", format!("{a},{b},{c}")));
+                    }
+                }
             }
         }
         // (c) edit neighbourhoods
@@ -281,7 +288,8 @@ impl Prop for C11 {
     fn check(&self, env: &mut Env, case: &Case) -> Verdict {
         if case.fam == "unicode" {
             let idx: Vec<usize> = if case.key.is_empty() { vec![] } else { case.key.split(',').map(|s| s.parse().unwrap()).collect() };
-            let total = if idx.len() < 2 { idx.len() } else { env.tier.pick(4, 5) };
+            let bulk_from = env.tier.pick(2, 3);
+            let total = if idx.len() < bulk_from { idx.len() } else { env.tier.pick(4, 5) };
             let mut buf: String = idx.iter().map(|i| UNI[*i]).collect();
             let mut evals = 0u64;
             let mut nontrivial = 0u64;
